@@ -97,7 +97,6 @@ impl J {
         s
     }
 
-    #[allow(dead_code)]
     pub fn compact(&self) -> String {
         let mut s = String::new();
         self.write(&mut s, 0, false);
